@@ -17,7 +17,14 @@ def gen_dir(rng, depth, max_depth, counter, force_index=False):
         d["index"] = gen_page(rng, counter, titled=force_index or rng.random() < 0.88)
     npages = rng.randint(0, 4)
     for _ in range(npages):
-        d["pages"][names.pop()] = gen_page(rng, counter, titled=rng.random() < 0.85)
+        stem = names.pop()
+        if rng.random() < 0.12:
+            # a dotted page name (release notes "abc.v2.md"), possibly next to "abc.md"
+            base = rng.choice(list(d["pages"]) + [stem]).split(".")[0]
+            stem = "%s.v%d" % (base, rng.randint(1, 3))
+            if stem in d["pages"]:
+                continue
+        d["pages"][stem] = gen_page(rng, counter, titled=rng.random() < 0.85)
     for _ in range(rng.randint(0, 2)):
         d["files"].append(names.pop() + rng.choice([".txt", ".png", ".csv"]))
     if rng.random() < 0.3:
